@@ -121,6 +121,9 @@ def gen_cases(rng, tier):
             acts.sort(key=lambda a: int(a.split(":")[0]))
             acts.append("%d:wait" % (t + 45000))
             cases.append(["r%d" % n, "c12", "uas", "-", ",".join(acts), "1", "race", ",".join(model)]); n += 1
+            # the same race with a caller whose Via branch has no magic cookie (RFC 2543 matching): every fifth one
+            if n % 5 == 0 and any(e.startswith("cancel") for e in s):
+                cases.append(["r%d" % n, "c12", "uas", "lbranch", ",".join(acts), "1", "race", ",".join(model)]); n += 1
     return cases
 
 
@@ -134,6 +137,8 @@ def model_case(case, impl):
 
 
 def _events(impl):
+    # a legacy caller's INVITE branch is given the name the rules below use for it
+    impl = impl.replace("|branch=invite1|", "|branch=z9hG4bKinvite1|")
     evs = []
     for tok in impl.split("\t")[0].split():
         m = re.match(r"(.*)@(\d+)$", tok)
